@@ -4,7 +4,7 @@
 From Coq Require Import String.
 From Coq Require Import Arith NArith Bool List.
 From PV Require Import Base.Bytes AVM.Syntax AVM.Ops AVM.Machine Comp.Passes Comp.Compile
-  Comp.SpillSem Proofs.SpillProof Proofs.PrologueProof Proofs.CallPartial.
+  Comp.SpillSem Proofs.SpillProof Proofs.PrologueProof Proofs.CallPartial Proofs.CallExamples.
 Import ListNotations.
 Notation length := List.length.
 
@@ -20,7 +20,8 @@ Print Assumptions C02_spill_keeps_call.
    For every version (all three code paths: cover / uncover-or-swap / dig), every non-empty duplicate-free
    list of local slots, every number of arguments, every argument list, every stack S of operands the
    caller has already computed, every scratch content m, and every callee — which may rewrite ALL slots —
-   that leaves as many results as the CALLER's return type says (r):
+   that leaves as many results as the flag r (second parameter of spill_one) says
+   — [spill] passes the CALLED subroutine's flag since the fix 258948a in /repo —:
    the code emitted by spillLocalSlotsDuringRecursion leaves the callee's results on top of S,
    every local slot holds its value from before the call, every other slot holds what the callee left.
    [length slots + numArgs - 1 <= 255] and [length slots <= 255]: the emitted uncover/dig/cover
@@ -50,8 +51,9 @@ Theorem C02_spill_frame_no_slots :
 Proof. exact spill_frame_no_slots. Qed.
 Print Assumptions C02_spill_frame_no_slots.
 
-(* ---- (R) the defect: the restore code is chosen from the CALLER's return type ----
-   caller returns nothing, callee returns a value (mutual recursion none <-> uint64): the stack is wrong
+(* ---- (R) the frame property FAILS when the flag and the callee disagree ----
+   This is what the compiler did before the fix 258948a (flag = the CALLER's return type) under mutual
+   recursion none <-> uint64.  Flag false, callee returns a value: the stack is wrong
    and both local slots are corrupted — on AVM 4 and AVM 6 *)
 Theorem C02_spill_frame_refuted_callee_returns :
   forall version, version = 4%N \/ version = 6%N ->
@@ -64,7 +66,7 @@ Theorem C02_spill_frame_refuted_callee_returns :
 Proof. exact spill_frame_refuted_callee_returns. Qed.
 Print Assumptions C02_spill_frame_refuted_callee_returns.
 
-(* caller returns a value, callee returns nothing: the caller's operand (1000) is consumed *)
+(* flag true, callee returns nothing: the caller's operand (1000) is consumed, both slots corrupted *)
 Theorem C02_spill_frame_refuted_callee_none :
   forall version, version = 4%N \/ version = 6%N ->
   exists stk m'',
@@ -75,6 +77,21 @@ Theorem C02_spill_frame_refuted_callee_none :
     /\ m'' 3%N <> m0 3%N /\ m'' 4%N <> m0 4%N.
 Proof. exact spill_frame_refuted_callee_none. Qed.
 Print Assumptions C02_spill_frame_refuted_callee_none.
+
+(* [spill] hands spill_one the CALLED subroutine's flag (the fix 258948a), shown on the mutual recursion
+   f : none (id 1) <-> g : uint64 (id 2): the call of g inside f is wrapped for a result, the call of f
+   inside g for none, so C02_spill_frame_same_type applies to both calls. *)
+Theorem C02_spill_uses_callee_flag :
+  spill 6 ex_prog
+        [mkFR None [call_stmt [ASub 1%N]];
+         mkFR (Some ex_f) [call_stmt [ASub 2%N]];
+         mkFR (Some ex_g) [call_stmt [ASub 1%N]]]
+        [(None, []); (Some 1%N, [3; 4]%N); (Some 2%N, [5]%N)]
+  = COk [mkFR None [call_stmt [ASub 1%N]];
+         mkFR (Some ex_f) (spill_one 6 true [3; 4]%N 1 (call_stmt [ASub 2%N]));
+         mkFR (Some ex_g) (spill_one 6 false [5]%N 1 (call_stmt [ASub 1%N]))].
+Proof. exact spill_uses_callee_flag. Qed.
+Print Assumptions C02_spill_uses_callee_flag.
 
 (* ---- (F) scratch convention: reversed stores bind parameter i to argument i ---- *)
 Theorem C02_prologue_scratch :
